@@ -195,7 +195,7 @@ func (vc *VC) newState() *State {
 	if vc.heap0shared == nil {
 		vc.heap0shared = map[string]Term{}
 	}
-	return &State{vc: vc, heap: map[string]Term{}, heap0: vc.heap0shared, held: map[string]string{}, nonnil: map[string]bool{}, ghostLocals: map[string]Val{}}
+	return &State{vc: vc, heap: map[string]Term{}, heap0: vc.heap0shared, held: map[string]string{}, nonnil: map[string]bool{}, ghostLocals: map[string]Val{}, dyn: map[string]dynInfo{}}
 }
 
 func (vc *VC) run() {
@@ -259,6 +259,11 @@ func (vc *VC) run() {
 		}
 	}
 	vc.evalExcuses(st)
+	if vc.fc != nil {
+		for _, c := range vc.fc.clauses("apply") {
+			vc.applyLemma(st, strings.TrimSuffix(strings.TrimSpace(c.Text), "at entry"))
+		}
+	}
 	vc.runGhost(st, "entry", "", 0)
 	st.enter(fn.Blocks[0], nil)
 }
@@ -732,7 +737,7 @@ func (st *State) step(in ssa.Instruction) {
 		}
 		r := st.allocRef("new." + x.Comment)
 		p := st.asPtr(TV{r, x.Type()}, x.Type())
-		st.store(p, st.zeroVal(el))
+		st.zeroInit(p, el)
 		st.bind(x, TV{r, x.Type()})
 	case *ssa.FieldAddr:
 		base := st.value(x.X)
@@ -1151,7 +1156,10 @@ func (st *State) makeInterface(v Val, from, to types.Type) Val {
 	case TV:
 		if x.T.Sort == SInt {
 			if _, isPtr := types.Unalias(from).Underlying().(*types.Pointer); isPtr {
-				return TV{app("mkptr", SInt, vc.typeID(from), x.T), to}
+				r := app("mkptr", SInt, vc.typeID(from), x.T)
+				st.dyn[r.S] = dynInfo{from, v}
+				vc.strLits["ptrtid."+typeRepr(from)] = "ptrtid"
+				return TV{r, to}
 			}
 			return TV{app("mkint", SInt, vc.typeID(from), x.T), to}
 		}
@@ -1374,4 +1382,22 @@ func (st *State) topNames() map[string]Val {
 		fr = fr.parent
 	}
 	return fr.names
+}
+
+// zeroInit: zero-initialise the leaves of a freshly allocated object (immutable, write-once leaves are left for their single store).
+func (st *State) zeroInit(p PtrV, el types.Type) {
+	for _, lf := range leavesOf(el, "") {
+		if p.Kind == "obj" {
+			if _, imm := st.vc.immutableFun(st.vc.leafKey(p, lf.path), lf.sort); imm {
+				continue
+			}
+		}
+		var z Term
+		if strings.HasSuffix(lf.path, "#arr") || strings.HasSuffix(lf.path, "#len") || strings.HasSuffix(lf.path, "#cap") {
+			z = tInt(0)
+		} else {
+			z = st.zeroTerm(lf.typ)
+		}
+		st.writeLeaf(p, lf, z)
+	}
 }
